@@ -39,6 +39,7 @@ def generate(rng, n, tier):
         vals = rng.choice([[0, 1, 2], [1, 3, 4, 9, 20], [0, 5], [0.5, 0.25, 1.75, 3],
                            [10 ** 8, 10 ** 8 + 1, 10 ** 8 + 3, 2 * 10 ** 8 + 1, 3],          # large constant + small detail: near-tied totals
                            [2 ** 24 + 1, 2 ** 24 + 3, 2 ** 25 + 1, 1], [2.0 ** -20, 1 + 2.0 ** -20, 2, 1],
+                           [-2, -1, 0, 1, 3], [-0.5, -4, 2, 0.25], [-1, -3],                      # rewards minus penalties: negative entries
                            [0, 2.0 ** -40, 2.0 ** -39], [2.0 ** -40, 3 * 2.0 ** -40, 2.0 ** -38, 0]])     # tiny scale (exact in binary): the optimum does not depend on the unit
         out.append({'C': sym_matrix(rows, vals, rng), 'mode': rng.choice([0, 1])})
     return out
@@ -92,7 +93,60 @@ def shrink(case):
         yield {'C': [row[1:] for row in C[1:]], 'mode': case['mode']}
 
 
-STREAMS = [Stream(
+# ------------------------------------------------------------------ stream segmentation: the delegating function builds the matrix from a cost function
+
+def gen_seg(rng, n, tier):
+    out = []
+    for _ in range(n):
+        k = rng.randint(3, 9)
+        vals = rng.choice([[0, 1, 2], [1, 3, 4, 9], [-2, -1, 0, 1, 3], [-0.5, -4, 2, 0.25], [-1, -3, -8], [0.5, 0.25, 1.75, 3]])
+        out.append({'K': [[rng.choice(vals) for _ in range(k)] for _ in range(k)], 'mode': rng.choice([0, 1])})
+    return out
+
+
+def seg_matrix(K):
+    # as documented in optimalSegmentation: C[i, j] = cost(track, i, j - 1) for i < n - 2, i <= j < n - 1, zero elsewhere, then C + C^T
+    n = len(K)
+    C = [[0] * n for _ in range(n)]
+    for i in range(n - 2):
+        for j in range(i, n - 1):
+            C[i][j] = K[i][j]
+    return [[C[i][j] + C[j][i] for j in range(n)] for i in range(n)]
+
+
+def run_seg(case):
+    import sys, tracklib.algo.segmentation
+    from tracklib.core import ObsTime, ENUCoords, Obs, Track
+    sg = sys.modules['tracklib.algo.segmentation']
+    K = case['K']
+    tr = Track([Obs(ENUCoords(i, 0, 0), ObsTime.readUnixTime(i)) for i in range(len(K))])
+    glob = None if case['mode'] == 0 else 7          # with and without the global parameter
+    cost = (lambda t, i, j: float(K[i][j + 1])) if glob is None else (lambda t, i, j, g: float(K[i][j + 1]))
+    out = sg.optimalSegmentation(tr, cost, glob, case['mode'], False)
+    return {'out': [int(v) for v in out]}
+
+
+def with_matrix(f):
+    return lambda case, obs: f({'C': seg_matrix(case['K']), 'mode': case['mode']}, obs)
+
+
+def shrink_seg(case):
+    K = case['K']
+    if len(K) > 4:
+        yield {'K': [row[:-1] for row in K[:-1]], 'mode': case['mode']}
+        yield {'K': [row[1:] for row in K[1:]], 'mode': case['mode']}
+
+
+S_SEG = Stream(
+    name='segmentation', budget={'quick': 300, 'thorough': 3000},
+    rule=('optimalSegmentation(track, cost, glob_param, mode) on tracks of 3..9 observations with a table-driven cost function (integer / dyadic values, negative ones included, with and '
+          'without the global parameter), both modes; the returned list is compared with the model and with brute force on the matrix the function documents '
+          '(C[i,j] = cost(track, i, j-1), symmetrised by addition); non-trivial = at least 4 observations'),
+    imports=IMPORTS, case_type='bool * nat * list (list Q) * list nat', check_def=CHECK,
+    generate=gen_seg, run_impl=run_seg, coq_case=with_matrix(coq_case), oracle=with_matrix(oracle), shrink=shrink_seg,
+    nontrivial=lambda c, o: len(c['K']) >= 4, klass=lambda c, o: 'n=%d,mode=%d' % (len(c['K']), c['mode']))
+
+STREAMS = [S_SEG, Stream(
     name='partition', budget={'quick': 500, 'thorough': 3000},
     rule=('symmetric cost matrices with 3..10 rows over small integer / dyadic value sets, both modes (thorough adds every {0,1,2}-valued matrix with 3 and 4 rows '
           'and every {0,1}-valued one with 5 rows - exhaustive); observed: the list returned by optimalPartition(C, mode, False); brute force over all index lists as oracle; '
